@@ -368,6 +368,11 @@ PROPS.update({
 PROPS["C06"]["verus"].append({"unit": U4, "fns": ["gc_retain_entry", "DeletionStatus::time_of_start_scheduled_for_deletion"]})
 PROPS["C06"]["assumptions"] += [A_CLOCK2, "BTreeMap::retain keeps exactly the entries for which the closure returns true and calls it once per entry (std's documented behaviour); only the closure body of gc_keys_marked_for_deletion is under contract (R10 slice)"]
 PROPS["C06"]["level_text"] += " The tombstone-GC predicate (the closure body handed to BTreeMap::retain, sliced mechanically) is proved: an entry is collected iff it is Deleted or TTL-marked and at least one grace period old, never a live or younger one, and the running watermark becomes the max of itself and every collected version (never lowered)."
+for _p in ("C07", "C14", "C03"):
+    PROPS[_p]["verus"].append({"unit": U1, "fns": ["stale_filter_pred", "stale_sort_key"]})
+PROPS["C06"]["verus"].append({"unit": U1, "fns": ["key_values_filter_pred", "iter_prefix_filter_pred"]})
+PROPS["C12"]["verus"].append({"unit": U4, "fns": ["scheduled_pred"]})
+PROPS["C12"]["level_text"] += " The quarantine predicate (closure body of scheduled_for_deletion_nodes) is proved: a dead member is scheduled iff time of death + half grace < now."
 U2_CODEC = ["ChitchatId::serialize", "ChitchatId::serialized_len", "Heartbeat::serialize", "Heartbeat::serialized_len", "NodeDigest::serialize",
             "NodeDigest::serialized_len", "alloc::string::String::serialize", "alloc::string::String::serialized_len",
             "DeletionStatusMutation::serialize", "DeletionStatusMutation::serialized_len", "KeyValueMutationRef::serialize",
